@@ -40,6 +40,10 @@ for i in range(1, 15):
 for i in range(1, 15):
     sh(f'git -C /repo worktree remove --force /tmp/{wdir}_C{i:02d}; rm -rf /tmp/{wdir}_C{i:02d}_out')
 sh('git -C /repo worktree remove --force /tmp/verify_mut; git -C /repo worktree prune')
+if os.environ.get('INGEST_PHASE') == 'verify':
+    # only verify and store (safe while run_seeded.py is busy with /repo); the own-property runs are done separately
+    print('stored', len(stored), [s for s, _ in stored])
+    sys.exit(0)
 base = json.load(open(os.path.join(ROOT, 'seeded', 'results.json')))
 for sid, pid in stored:
     out = sh(f'timeout 1500 python3 {ROOT}/tools/run_seeded.py {sid} --props={pid}', cwd=ROOT)
